@@ -305,7 +305,7 @@ def norm(v, cap: int = 400, _depth: int = 0):
     """Plain-data denotation of a Vyxal value.  Lists and LazyLists become
     Python lists (lazy ones forced up to `cap` items; longer -> ('prefix', items)),
     exact numbers become Fractions, strings stay strings."""
-    if _depth > 12:
+    if _depth > 40:
         return ("deep",)
     if isinstance(v, bool):
         return ("bool", v)
